@@ -80,6 +80,10 @@ def cells(tier):
                    ('EAItemSwap', {'k': 2}), ('roItemInsert', {}), ('EAItemInsert', {'tk': 'blank'}), ('EAItemDelete', {'k': 2}),
                    ('EAItemReplace', {})):
         out.append(mk(op, 3, gap=None, rname='any', timeout=T, extra={'presend': True}, **kw))
+    # the story next door carries timing metadata that is free text
+    for op, kw in (('roItemMoveMultiple', {}), ('EAItemMove', {}), ('roItemDelete', {}), ('roItemReplace', {}), ('EAItemSwap', {'k': 2}),
+                   ('roItemInsert', {}), ('EAItemInsert', {}), ('EAItemDelete', {}), ('EAItemReplace', {})):
+        out.append(mk(op, 3, gap=None, rname='any', timeout=T, extra={'odd_timing': True}, **kw))
     # the smallest shapes: a single item; every item of the story named as a source
     for op, kw in (('roItemMoveMultiple', {'tk': 'blank'}), ('EAItemMove', {'tk': 'blank'}), ('roItemDelete', {}), ('EAItemDelete', {}),
                    ('roItemReplace', {'k': 2}), ('EAItemReplace', {}), ('roItemInsert', {}), ('EAItemInsert', {'tk': 'blank'})):
